@@ -12,15 +12,16 @@ Rules (all over K1 facts of zbus::address):
              n = the digit's value, and the byte pushed for `%XY` is (hex(X) << 4) | hex(Y) with X the
              first char consumed
   P-PAIR     per transport type with a `from_options` parser: every option value its Display writes
-             through encode_percents is read back by from_options under the same key and that value
-             flows into decode_percents (directly or through a closure given to Option::map & co);
+             through encode_percents (key = the literal `key=` written just before, by dominance) is read
+             back by from_options under the same key, and the argument of a decode_percents call traces
+             back (through conversions, `?`, tuple packing — field-sensitively —, or as the receiver of an
+             Option::map-like call whose closure / fn item is the decoder) to that very HashMap::get;
              conversely every key from_options decodes is written through encode_percents
   P-KEYS     every `key=` its Display writes is a key that from_options consults (HashMap::get /
              contains_key with that constant, or the same `argv{N}` template); numbered keys are counted
              from the same first number in steps of one on both sides (Display: K + enumerate() position,
              from_options: counter initialised to K); the same for the keys Address::fmt writes itself (guid)
              against Address::from_str
-
   P-TRANSPORT the `name:` prefix each transport's Display writes is the string Transport::from_options dispatches
              to that same type's from_options (tcp / nonce-tcp -> Tcp, unix -> Unix, unixexec -> Unixexec)
   P-ENUM     field-less enums of the module with both Display and FromStr (TcpTransportFamily): the text Display
@@ -332,7 +333,9 @@ def key_of_get(body, c):
 
 
 def decoded_keys(f, body, dec_id):
-    """{key: (get Call, decoded?)} for every HashMap::get / contains_key in a from_options body"""
+    """{key: (lookup Call, decoded?, 'get'|'contains_key')} for every HashMap lookup in a from_options body.
+    `decoded` = the value looked up under that key is what a decode_percents call receives; the key is found
+    by tracing the decoder's argument backwards (field-sensitively through tuple packing, conversions, `?`)."""
     out = {}
     for c in mir.calls(body):
         if not ("HashMap" in c.callee and c.is_("get", "contains_key", "get_key_value", "remove")):
@@ -341,28 +344,30 @@ def decoded_keys(f, body, dec_id):
         if key is None:
             out["?" + str(len(out))] = (c, False, "key not a constant")
             continue
-        decoded = False
-        if c.is_("get", "get_key_value", "remove"):
-            t = sf.Taint(body, {c.dest[0]})
-            for x in mir.calls(body):
-                if x is c or not any(t.touches(a) for a in x.args):
-                    continue
-                if x.callee == dec_id:
-                    decoded = True
-                for cb in sf.closure_operands(body, x, f):
-                    ct = sf.Taint(cb, set(range(2, cb.d["argc"] + 1)))
-                    for y in mir.calls(cb):
-                        if y.callee == dec_id and y.args and ct.touches(y.args[0]):
-                            decoded = True
-                # a fn item passed as the mapper: Option::map(x, decode_percents)
-                for a in x.args:
-                    k = mir.op_const(a)
-                    if k and k.get("fn") == dec_id:
-                        decoded = True
+        kind = "get" if c.is_("get", "get_key_value", "remove") else "contains_key"
         prev = out.get(key)
-        out[key] = (c, decoded or (prev[1] if prev else False), "get" if c.is_("get", "get_key_value", "remove") else "contains_key")
+        if prev is None or (prev[2] == "contains_key" and kind == "get"):
+            out[key] = (c, False, kind)
+    dec_keys = set()
+    for x in mir.calls(body):
+        fed = None
+        if x.callee == dec_id and x.args:
+            fed = x.args[0]
+        else:
+            for cb in sf.closure_operands(body, x, f):
+                ct = sf.Taint(cb, set(range(2, cb.d["argc"] + 1)))
+                if any(y.callee == dec_id and y.args and ct.touches(y.args[0]) for y in mir.calls(cb)):
+                    fed = x.args[0]
+            for a in x.args[1:]:
+                k = mir.op_const(a)
+                if k and k.get("fn") == dec_id:
+                    fed = x.args[0]
+        if fed is not None:
+            dec_keys.add(trace_key(body, fed))
+    for key in list(out):
+        if key in dec_keys and out[key][2] == "get":
+            out[key] = (out[key][0], True, "get")
     return out
-
 
 
 # ----------------------------------------------------------------------------------- numbered keys
